@@ -1548,6 +1548,20 @@ unsigned MEDDLY::forest::countRegisteredEdges() const
     return count;
 }
 
+#ifdef MEDDLY_VERIF
+void MEDDLY::forest::verifVisitRoots(std::vector <const dd_edge*> &v) const
+{
+    for (const dd_edge* r = roots; r; r=r->next) {
+        v.push_back(r);
+    }
+}
+
+unsigned long MEDDLY::forest::verifCacheCount(node_handle p) const
+{
+    return nodeHeaders.getNodeCacheCount(p);
+}
+#endif
+
 void MEDDLY::forest::markAllRoots()
 {
     if (!reachable) return;
